@@ -593,7 +593,21 @@ def r7(model: Model, rep: Report):
         n_ret += 1
         lp = loop_of(p)
         if lp is None:
-            raise AnalysisError(f"{construct}: no loop")
+            # a way out that appends nothing: only right when the appended block has no nodes
+            other_empty = []
+            for expr in ("other.empty_composite", "other._circuit_graph.empty_graph"):
+                try:
+                    ev.set_type(other, K)
+                    other_empty.append(ev.expr(ast.parse(expr, mode="eval").body, Frame(f, f.module, {"other": other}, K, 0)))
+                except Unsupported:
+                    pass
+            if any(_implies(ev, p.cond, e_) for e_ in other_empty):
+                rep.ok("C01.R7", construct + "[nothing to append]", f.loc, found=f"returns early when the appended block is empty: [{show(p.cond)}]", required="every node of the copy is added")
+                continue
+            rep.fail("C01.R7", construct + "[all-nodes]", f.loc, found=f"returns without appending when [{show(p.cond)}]", required="every node of the copy is added",
+                     what=f"extend() drops the whole appended block on the path [{show(p.cond)}] although the block may hold operations (e.g. only zero-length ones): "
+                          "a repeated block is then not repeated", detail="all-nodes")
+            continue
         # the hand-over loop is the one that adds to self (a helper that prepares the chain link may loop over the leaves first)
         adders = [e for e in p.events if e.kind == "loop" and any(c[1][1] == s for bp in e.extra["paths"] for _, c in effect_calls(bp.events, "add"))]
         if len(adders) == 1:
